@@ -65,7 +65,10 @@ PROBES = ["start_while_starting", "start_while_stopping", "stop_while_starting",
           "request_from_hook", "hook_same_mode_start_in_stopped", "hook_same_mode_stop_in_started",
           "hold_starting", "hold_stopping", "quick_clear", "op_on_timer", "registry_compared", "registry_after_cycles_5",
           "queue_start", "queue_start_wq", "burst", "trigger_while_stopping", "trigger_while_active",
-          "stop_by_own_device", "refused_game_mode", "priority_override", "switch_while_active", "var_flip_while_active"]
+          "stop_by_own_device", "refused_game_mode", "priority_override", "switch_while_active", "var_flip_while_active",
+          "game_started", "game_ended", "ball_started", "game_drain", "game_add_player_request", "game_end_request",
+          "ball_end_with_game_mode_active", "registry_compared_in_game", "registry_after_game_mode_stop",
+          "registry_compared_after_game"]
 REAL = ["mpf.core.mode.Mode", "mpf.core.mode_controller.ModeController", "mpf.core.config_player.ConfigPlayer and the "
         "event/variable/light/show/coil/queue_relay players", "mpf.core.mode_device / logic blocks / timers / combo_switch",
         "mpf.core.events.EventManager", "mpf.core.delays.DelayManager", "mpf.core.switch_controller", "MachineController boot",
@@ -77,7 +80,8 @@ ASSUMPTIONS = ["call_soon FIFO order is kept (asyncio guarantees it)",
                "no game is running (game modes are only checked for refusal)"]
 STATE_ABSTRACTION = "(per mode last lifecycle event, number of outstanding holds, bus quiet?)"
 
-TEST_MODES = ["plain", "hi", "lo", "wq", "dev", "players", "coded", "gm"]
+TEST_MODES = ["plain", "hi", "lo", "wq", "dev", "players", "coded", "gm", "gshots"]
+GAME_MODES = ("gm", "gshots")
 PHASES = ["will_start", "starting", "started", "will_stop", "stopping", "stopped"]
 NEXT = {None: "will_start", "will_start": "starting", "starting": "started", "started": "will_stop",
         "will_stop": "stopping", "stopping": "stopped", "stopped": "will_start"}
@@ -93,9 +97,15 @@ TRIGGERS = {
             "dev_acc_2", "dev_t_pause", "dev_t_add", "dev_t_restart", "dev_t_stop", "dev_t_start", "dev_t_reset",
             "dev_t2_start", "dev_t2_jump"],
     "coded": ["coded_ping", "coded_later", "coded_later", "coded_watch"],
+    # redundant enables/restarts on shots that are already enabled are the point of these
+    "gshots": ["gs_enable", "gs_enable", "gs_disable", "gs_restart", "gs_restart", "gs_reset", "gs_advance", "gs_hit",
+               "gs2_enable", "gsg_enable", "gsg_disable", "gsg_restart", "gsg_reset", "gsg_rotate", "gs_count",
+               "gs_t_restart", "gs_t_pause"],
 }
 ALL_TRIGGERS = sorted(set(sum(TRIGGERS.values(), [])))
 SWITCHES = ["s_code", "s_code", "s_left", "s_right", "s_misc"]
+GAME_SWITCHES = ["s_shot1", "s_shot1", "s_shot2", "s_shot3"]
+GAME_OPS = [("g_drain", 5), ("g_add_player", 1), ("g_end", 1), ("g_start", 1.5)]
 
 
 # ------------------------------------------------------------------------------------------------------------
@@ -152,7 +162,7 @@ def _gen_op(ch, focus, allow_burst=True):
     elif kind == "var":
         op["value"] = ch.choice("var", 2)
     elif kind == "switch":
-        op["switch"] = ch.pick("sw", SWITCHES)
+        op["switch"] = ch.pick("sw", SWITCHES + (GAME_SWITCHES * 2 if "gshots" in focus else []))
         op["state"] = ch.choice("sw_state", 2)
     elif kind == "burst":
         # several things in one instant; half of the bursts stay with one mode (request + its own triggers)
@@ -170,6 +180,10 @@ def plan(ch, tier):
     focus = sorted(TEST_MODES[i] for i in perm[:nfocus])
     if focus == ["gm"]:
         focus = ["gm", "plain"]
+    # a share of the runs plays a (device-less) game; the game mode with the persisted devices is then always in focus
+    game = ch.flag("game", 0.4)
+    if game:
+        focus = sorted(set(focus) | {"gshots"})
     hooks = [_gen_hook(ch.sub("h%d" % i), focus) for i in range(ch.weighted("nhooks", [(0, 3), (1, 3), (2, 2), (4, 1)]))]
     n = 3 + ch.choice("nops", 43)
     ops = []
@@ -181,7 +195,15 @@ def plan(ch, tier):
         else:
             op["when"] = ["timer", ch.choice("timer_idx", 4), ch.pick("timer_delta", [0.0, 0.0, -0.001, 0.001])]
         ops.append(op)
-    return {"knobs": knobs, "focus": focus, "hooks": hooks, "ops": ops}
+    if game:
+        gops = [{"op": "g_start", "when": ["rel", ch.pick("g.dt0", [0.05, 0.0, 0.3])]}]
+        for _ in range(ch.choice("g.n", 7)):
+            gops.append({"op": ch.weighted("g.op", GAME_OPS), "when": ["rel", ch.pick("g.dt", [0.05, 0.0, 0.001, 0.3, 1.0, 2.0])]})
+        pos = min(len(ops), ch.choice("g.pos0", 3))
+        for g in gops:
+            ops.insert(pos, g)
+            pos = min(len(ops), pos + 1 + ch.choice("g.gap", 8))
+    return {"knobs": knobs, "focus": focus, "hooks": hooks, "ops": ops, "game": game}
 
 
 def shrink(plan):
@@ -317,8 +339,9 @@ def execute(ctx, plan):
     def lifecycle(n, phase, kwargs):
         s = st[n]
         ctx.log("life", n, phase, t=now())
-        if n == "gm":
-            ctx.violation("refused", "game mode event outside a game", "mode gm posted %s although no game is running" % phase)
+        if n in GAME_MODES and phase == "will_start" and not (m.game and modes[n].player):
+            ctx.violation("refused", "game mode started outside a game",
+                          "game mode %s posted will_start although no game/player turn is running" % n)
         exp = NEXT[s["last"]]
         if phase != exp:
             ctx.violation("event_order", "%s after %s" % (phase, s["last"]),
@@ -343,12 +366,67 @@ def execute(ctx, plan):
             ctx.probe("stop_by_own_device")
 
     def on_post(name, ev_type, callback, kwargs):
+        if name == "game_started":
+            games[0] += 1
+            ctx.probe("game_started")
+        elif name == "game_ended":
+            games[1] += 1
+            ctx.probe("game_ended")
+            # the balls of an aborted game leave the (fake) playfield, as in MpfFakeGameTestCase.stop_game
+            m.playfield.balls = 0
+            m.playfield.available_balls = 0
+        elif name == "ball_started":
+            ctx.probe("ball_started")
         mt = LIFE.match(name)
         if mt:
             lifecycle(mt.group(1), mt.group(2), kwargs)
         check_active_list(name)
 
     tap_events(sim, on_post)
+
+    # -- device-less game (as mpf/tests/MpfFakeGameTestCase.py) ------------------------------------------------------
+    pf = m.playfield
+
+    def _add_ball(**kwargs):
+        pf.balls += 1
+        pf.available_balls += 1
+    pf.add_ball = _mark(_add_ball)
+    m.ball_controller.num_balls_known = 3
+    attract = m.modes["attract"]
+    game_mode = m.modes["game"]
+    games = [0, 0]      # started, ended
+
+    def _drained(balls=0, **kwargs):
+        pf.balls -= balls
+        pf.available_balls -= balls
+    _mark(_drained)
+
+    def game_op(kind):
+        g = m.game
+        ctx.log("game_op", kind, g is not None, g.player.number if g and g.player else None,
+                g.player.ball if g and g.player else None, t=now())
+        if kind in ("g_start", "g_add_player"):
+            if kind == "g_start" and g is None:
+                ctx.probe("game_start_request")
+            if kind == "g_add_player" and g is not None:
+                ctx.probe("game_add_player_request")
+            sim.hit_switch("s_start", 1)
+            sim.hit_switch("s_start", 0)
+        elif kind == "g_drain":
+            if g is not None and g.balls_in_play > 0:
+                ctx.probe("game_drain")
+                if st["gshots"]["last"] == "started":
+                    ctx.probe("ball_end_with_game_mode_active")
+                ev.post_relay("ball_drain", callback=_drained, balls=1)
+        elif kind == "g_end":
+            if g is not None:
+                ctx.probe("game_end_request")
+                g.end_game()
+
+    def pre_game_environment():
+        """Everything outside the test modes is as it was when the base snapshot was taken: no game, attract settled."""
+        return (m.game is None and attract.active and not attract.starting and not attract.stopping and
+                not game_mode.active and not game_mode.starting and not game_mode.stopping)
 
     # -- callbacks tokens ----------------------------------------------------------------------------------
     def new_token(kind, n):
@@ -423,7 +501,8 @@ def execute(ctx, plan):
         quiet = origin == "op" and quiet_bus()
         sett = settled(n) if quiet else None
         must = None
-        if sett == "stopped" and kind == "start" and n != "gm":
+        startable = n not in GAME_MODES or bool(m.game and md.player)
+        if sett == "stopped" and kind == "start" and startable:
             must = "will_start"
         if sett == "active" and kind == "stop":
             must = "will_stop"
@@ -432,7 +511,7 @@ def execute(ctx, plan):
         if "prio" in r and kind == "start":
             kw["mode_priority"] = r["prio"]
             ctx.probe("priority_override")
-        if n == "gm" and kind == "start":
+        if n in GAME_MODES and kind == "start" and not startable:
             ctx.probe("refused_game_mode")
         before = {p: s["count"][p] for p in ("will_start", "will_stop")}
         if via == "direct":
@@ -527,7 +606,7 @@ def execute(ctx, plan):
 
     # -- triggers ---------------------------------------------------------------------------------------------------
     def post_trigger(e, origin):
-        for n in ("players", "dev", "coded"):
+        for n in sorted(TRIGGERS):
             if e.replace("Q:", "") in [x.replace("Q:", "") for x in TRIGGERS[n]]:
                 if st[n]["last"] in ("will_stop", "stopping"):
                     ctx.probe("trigger_while_stopping")
@@ -585,13 +664,33 @@ def execute(ctx, plan):
         line = re.sub(r"show_\d+", "show_<n>", line)
         return line.strip()[:150]
 
+    owner_names = set(TEST_MODES)
+    sections = {c.config_section for c in m.device_manager.collections.values()}
+    for n in TEST_MODES:
+        for section, cfg in modes[n].config.items():
+            if section in sections and isinstance(cfg, dict):
+                owner_names.update(str(k) for k in cfg.keys())
+    owned = re.compile(r"(?<![A-Za-z0-9_])(%s)(?![A-Za-z0-9_])" % "|".join(sorted(re.escape(x) for x in owner_names)))
+    base_owned = H.restrict(base, owned)
+
     def compare_registry(where):
         cur = H.snapshot(sim, _is_harness)
         compared[0] += 1
         ctx.probe("registry_compared")
         if max(st[n]["cycles"] for n in TEST_MODES) >= 5:
             ctx.probe("registry_after_cycles_5")
-        d = H.diff(base, cur)
+        if pre_game_environment():
+            d = H.diff(base, cur)
+            if games[0]:
+                ctx.probe("registry_compared_after_game")
+        else:
+            # R7: while a game runs (or starts/ends) the rest of the machine legitimately differs from the snapshot
+            # taken before the game; what belongs to the test modes and their devices must still be exactly as before
+            d = H.diff(base_owned, H.restrict(cur, owned))
+            where += " (in game: items of the test modes and their devices)"
+            ctx.probe("registry_compared_in_game")
+            if st["gshots"]["cycles"]:
+                ctx.probe("registry_after_game_mode_stop")
         ctx.log("registry", where, H.digest(cur), len(d), t=now())
         if d:
             cyc = {n: st[n]["cycles"] for n in TEST_MODES if st[n]["cycles"]}
@@ -626,13 +725,15 @@ def execute(ctx, plan):
             ctx.log("var", op["value"], t=now())
             m.variables.set_machine_var("c07_flag", op["value"])
         elif kind == "switch":
-            if any(st[n]["last"] == "started" for n in ("dev", "coded")):
+            if any(st[n]["last"] == "started" for n in ("dev", "coded", "gshots")):
                 ctx.probe("switch_while_active")
             ctx.log("switch", op["switch"], op["state"], t=now())
             sim.hit_switch(op["switch"], op["state"])
         elif kind == "clear_holds":
             for hid in sorted(holds.keys()):
                 clear_hold(hid)
+        elif kind in ("g_start", "g_add_player", "g_drain", "g_end"):
+            game_op(kind)
         elif kind == "burst":
             ctx.probe("burst")
             for sub in op["ops"]:
@@ -759,11 +860,25 @@ def execute(ctx, plan):
             raise AssertionError("op chain did not finish")
     if not abort[0]:
         checkpoint(final=True)
+    if not abort[0] and not pre_game_environment():
+        # end the game and wait for attract; bound: the game's ending queue events are only held by the hooks
+        if m.game is not None:
+            m.game.end_game()
+        for _ in range(6 + sum(len(h["script"]) for h in plan["hooks"])):
+            sim.run_quiet(HOLD_MAX + 0.1)
+            if pre_game_environment() and quiet_bus() and not holds:
+                break
+        if not pre_game_environment():
+            ctx.violation("liveness", "game does not end", "the game did not end / attract did not come back: game=%r attract=%r"
+                          % (m.game, (attract.active, attract.starting, attract.stopping)))
+        checkpoint(final=True)
     if not abort[0]:
         # the longest thing a stopped mode could have left behind in this machine is a 5 s delay: let it show up
         sim.run_quiet(6.0)
         judge_coded()
         if all_stopped_quiet():
             compare_registry("final+6s")
+    if plan.get("game") and games[0] == 0:
+        pass
     info["compared"] = compared[0]
     info["cycles"] = {n: st[n]["cycles"] for n in TEST_MODES if st[n]["cycles"]}
